@@ -565,6 +565,84 @@ func c15Ggqlgen(c *core.Ctx, bases []*sgen.Schema) {
 		}
 		c.Outcome("ggqlgen-e-ok")
 	}
+	// two files in one run: one that is only read (a dependency), one that is rewritten / embedded - whichever is which and in
+	// whichever order they are given, the two files together still define the schema they defined before
+	const fileA = "type Query {\n  q: User\n}\n\ntype User {\n  name: String @auth\n}\n\ndirective @auth on FIELD_DEFINITION\n"
+	const fileB = "type Post {\n  title: String\n  author: User\n}\n\nenum Kind {\n  X\n  Y\n}\n"
+	wantBoth := func() string {
+		l := loadSDL(fileA + "\n" + fileB)
+		back, _ := sgen.FromRoot(l.root, []string{"auth"})
+		return back.Canonical(sgen.CanonOpts{})
+	}()
+	// (the tool loads the plain files in the order given and the -w files after them, one at a time: b needs a, so a is never
+	// the -w file beside a plain b, and a comes first among plain files)
+	for ci, order := range [][2]string{{"a", "b"}} {
+		for _, rewrite := range []string{"a", "b"} {
+			for _, flag := range []string{"-w", "-e"} {
+				if flag == "-w" && rewrite == "a" {
+					continue
+				}
+				c.Eval()
+				c.R.Distinct++
+				c.Nontrivial()
+				sub := filepath.Join(dir, fmt.Sprintf("two%d%s%s", ci, rewrite, flag))
+				_ = os.MkdirAll(sub, 0o755)
+				pa, pb := filepath.Join(sub, "a.graphql"), filepath.Join(sub, "b.graphql")
+				_ = os.WriteFile(pa, []byte(fileA), 0o644)
+				_ = os.WriteFile(pb, []byte(fileB), 0o644)
+				path := map[string]string{"a": pa, "b": pb}
+				var args []string
+				dest := filepath.Join(sub, "out.go")
+				if flag == "-e" {
+					args = []string{"-p", "x", "-e", path[rewrite] + ":" + dest + ":SDL"}
+				}
+				if flag == "-w" { // flags first
+					args = append(args, "-w", path[rewrite])
+				}
+				for _, f := range order {
+					if !(f == rewrite && flag == "-w") {
+						args = append(args, path[f])
+					}
+				}
+				out, err := exec.Command(bin, args...).CombinedOutput()
+				detail := map[string]interface{}{"tool": "ggqlgen " + strings.Join(args, " "), "output": string(out), "file_a": fileA, "file_b": fileB}
+				attrs := map[string]string{"flag": flag, "part": "two-files", "rewritten": rewrite, "order": order[0] + order[1]}
+				if err != nil {
+					attrs["what"] = "tool-failed"
+					c.Violation("ggqlgen", attrs, detail)
+					continue
+				}
+				ta, _ := os.ReadFile(pa)
+				tb, _ := os.ReadFile(pb)
+				texts := map[string]string{"a": string(ta), "b": string(tb)}
+				if flag == "-e" {
+					goSrc, _ := os.ReadFile(dest)
+					first, last := strings.IndexByte(string(goSrc), '`'), strings.LastIndexByte(string(goSrc), '`')
+					if first < 0 || last <= first {
+						attrs["what"] = "no-constant"
+						c.Violation("ggqlgen", attrs, detail)
+						continue
+					}
+					texts[rewrite] = string(goSrc[first+1 : last])
+				}
+				detail["after_a"], detail["after_b"] = texts["a"], texts["b"]
+				l := loadSDL(texts["a"] + "\n" + texts["b"])
+				if l.err != nil || l.pi != nil {
+					detail["diff"] = fmt.Sprint(l.err)
+					attrs["what"] = "files-no-longer-load-together"
+					c.Violation("ggqlgen", attrs, detail)
+					continue
+				}
+				if back, err := sgen.FromRoot(l.root, []string{"auth"}); err != nil || back.Canonical(sgen.CanonOpts{}) != wantBoth {
+					detail["diff"] = "the two files together define a different schema"
+					attrs["what"] = "schema-changed"
+					c.Violation("ggqlgen", attrs, detail)
+					continue
+				}
+				c.Outcome("ggqlgen-two-files-ok")
+			}
+		}
+	}
 }
 
 func verifDirProps() string {
